@@ -532,7 +532,7 @@ func (h *history) vote(key int, cp *chainkit.Blk) bool {
 
 func runHistory(c *ev.Case, net *chainkit.Net, g *chainkit.Genesis, base string) {
 	rng := c.Rand
-	u := genUniverse(rng, g)
+	u := genUniverse(rng, net, g)
 	tr := net.NewTree(g)
 	nBlocks := rng.Range(8, 18)
 	pct := rng.Range(25, 60)
@@ -611,7 +611,7 @@ func TestC23(t *testing.T) {
 	r := ev.Start(t, "C23")
 	defer r.Finish()
 	net := chainkit.Configure(chainkit.Params{Epoch: 4, Fed: 4, Local: -1, VotePending: 3, NKeys: 4})
-	g := net.NewGenesis(8, 0)
+	g := net.NewGenesis(10, 0)
 	base := t.TempDir()
 	r.Rule("per history: a universe of 6-16 harness transactions over genesis funds (independent, conflicting, chained, two-parent, time-ranged, BCRP dust); a tree of 10-20 blocks grown so that the best chain alternates between branches, each block confirming a random ledger-valid subset; blocks delivered in creation / locally swapped / random order, interleaved with ValidateTx submissions (never, before all blocks, in between, twice, after all blocks) and in a quarter of the histories 2-4 verification messages justifying a height-4 checkpoint; two final blocks on the best tip. The oracle runs after every step. distinct = (tree shape, delivery order kind, histogram of submission plans, vote class)")
 	r.Assume("the harness tree and the set of delivered blocks define the main chain (path genesis..Chain.BestBlockHash); Chain.InMainChain is cross-checked and a disagreement is inconclusive (C11 decides it)")
